@@ -16,6 +16,7 @@ import (
 	"bufio"
 	"encoding/json"
 	"fmt"
+	"math/rand"
 	"os"
 	"runtime/debug"
 	"sync"
@@ -587,4 +588,41 @@ func (t *Trie) Write(file string) error {
 		level = nl
 	}
 	return nil
+}
+
+// RandomChains records n random walks of the given length through the explorer's operation
+// alphabet (the small alphabet of the exhaustive tree, far deeper than the tree can go), each as a
+// chain with the full projection after every call and the terminal observation at the end.
+func RandomChains(e *Explorer, file string, n, length int, seed int64) (int, error) {
+	ls, err := NewLinearSet(file, e.ZeroProj)
+	if err != nil {
+		return 0, err
+	}
+	rng := rand.New(rand.NewSource(seed))
+	for i := 0; i < n; i++ {
+		var path []Op
+		done := false
+		ls.Run(e.New(), func(step int) (Op, bool) {
+			if done {
+				return Op{}, false
+			}
+			if step >= length {
+				done = true
+				if e.Term != nil && len(path) > 0 {
+					if t := e.Term(path); len(t) > 0 {
+						return t[0], true
+					}
+				}
+				return Op{}, false
+			}
+			ops := e.Ops(path)
+			if len(ops) == 0 {
+				return Op{}, false
+			}
+			o := ops[rng.Intn(len(ops))]
+			path = append(path, o)
+			return o, true
+		})
+	}
+	return ls.Close()
 }
